@@ -294,11 +294,7 @@ package rsm
 
 // assumed contracts of the hash / io interfaces used by the block writer: they only touch
 // their own internal state
-//@ extern hash (h Hash) Sum
-//@ ensures fresh(result) || cap(result) == 0
-//@ extern hash (h Hash) Reset
-//@ extern hash (h Hash) Write
-//@ extern io (w Writer) Write
+// (declared once, further down, together with their ghost effects)
 
 // the block callback receives the block and its checksum; it may use the spare capacity of
 // data (the v2 writer appends the checksum to it) but nothing else that is visible here
@@ -844,10 +840,26 @@ package rsm
 
 // an exported snapshot always carries the full state machine data (it is what a repaired shard
 // is rebuilt from); only witnesses and ordinary on-disk snapshots are dummies
-//@ func (ds *NativeSM) saveDummy [C08]
-//@ trusted writes the session image only
-//@ func (ds *NativeSM) save [C08]
-//@ trusted writes the session image followed by the user state machine's snapshot
+// verified (were trusted). C05 / C08 (a snapshot carries the session table AND the state machine's data, the session image
+// first -- it is what the reader strips off before handing the rest to the user's Recover): the user Save is called exactly
+// once, and the last thing written before it is the session image; a dummy image is the session image alone
+// gUserSaves: calls of the user state machine's Save; gSessAtSave: the buffer last written when the latest one started
+//@ ghost var gUserSaves int
+//@ ghost var gSessAtSave int
+//@ iface (s IStateMachine) Save
+//@ modifies gUserSaves, gSessAtSave, gHashIn, gHashInLen
+//@ ghostset gUserSaves := old(gUserSaves) + 1
+//@ ghostset gSessAtSave := old(gHashIn)
+//@ func (ds *NativeSM) saveDummy [C08 C05]
+//@ noframe
+//@ nobounds
+//@ ensures gUserSaves == old(gUserSaves)
+//@ ensures result == nil ==> gHashIn == ptr(session) && gHashInLen == len(session)
+//@ func (ds *NativeSM) save [C08 C05]
+//@ noframe
+//@ nobounds
+//@ ensures result == nil ==> gUserSaves == old(gUserSaves) + 1 && gSessAtSave == ptr(session)
+//@ ensures gUserSaves <= old(gUserSaves) + 1
 //@ iface (s IStateMachine) OnDisk
 //@ func (ds *NativeSM) Save [C08]
 //@ noframe
@@ -900,7 +912,6 @@ package rsm
 //@ ghost var gMarshalled int
 //@ extern encoding/json Marshal
 //@ ghostset gMarshalled := obj(v)
-//@ extern io (w Writer) Write
 //@ func (s *Session) save [C05 C08]
 //@ noframe
 //@ nobounds
